@@ -6,19 +6,21 @@ PY = "/venv/bin/python"
 ENV = ("log level, stack depth, global-PRNG pollution, stepping/frozen/backward/jumping clock (file mtimes included), "
        "OSError at open/n-th write/close/rename/mkdir/remove, Ctrl-C (a KeyboardInterrupt: the code's own handlers, SIGINT handlers and exit hooks run) "
        "and kill (nothing runs any more; torn/lost buffered writes) at a seeded line or a few lines after the k-th file-system event, "
-       "MemoryError at a seeded step, process restarts (interpreter-wide state reset) versus calls inside one long-lived process")
+       "short writes on unbuffered files, MemoryError at a seeded step, process restarts (interpreter-wide state reset) versus calls inside one long-lived process, "
+       "a simulated home/temp directory, inputs/ or outputs/ on file systems of their own (EXDEV), a host process with warnings as errors, "
+       "threads started by the code scheduled one at a time by a seeded scheduler")
 CLAIMED = {
- "C10": ("3.C10", "Seeded simulation of a client that owns 1-4 game descriptions (some sharing list objects, some differing in one player or reward only) and issues sequences of solves (same object, fresh object, toggled pruning flag, auxiliary calls, run_games batches, restarts; 1-2% marathon sessions of hundreds of solves; quiet stretches of 2^8..2^16 identical tiny solves between two rounds of probe games; the caller editing in place the lists a solve returned) under " + ENV + "; after every op every description must be type- and bit-identical to its snapshot and every completed solve must equal what a brand-new interpreter with another string-hash seed returns for that description and flag.",
+ "C10": ("3.C10", "Seeded simulation of a client that owns 1-4 game descriptions (some sharing list objects, some differing in one player or reward only) and issues sequences of solves (same object, fresh object, toggled pruning flag, auxiliary calls, run_games batches, restarts; 1-2% marathon sessions of hundreds of solves; quiet stretches of 2^8..2^16 identical tiny solves between two rounds of probe games; the caller editing in place the lists a solve returned and its own description, descriptions with aliased rows, floods of thousands of distinct games, two processes calling run_games at the same time) under " + ENV + "; after every op every description must be type- and bit-identical to its snapshot and every completed solve must equal what a brand-new interpreter with another string-hash seed returns for that description and flag.",
          "Sampling, not proof. Oracle = same code in a pristine process (fresh interpreter, other PYTHONHASHSEED) on a private copy (decides repeatability/isolation, not numerical correctness). Games whose pristine solve diverges are discarded. Intactness at the instant of an injected interrupt is a probe, not an invariant (the property quantifies over solves, not crash points)."),
- "C11": ("3.C11", "Seeded simulation of the generator -> file -> reader -> solver pipeline on one simulated disk: CLI (all equivalent spellings) and manual entry point, across restarts and repeatedly inside one process, on tiny/small/wide/tall/huge boards and every tile count 1..260 (thorough: 1..900) once, hand boards as lists or tuples, whole-percent, many-digit and near-0/near-1 probabilities, under a simulated locale encoding and " + ENV + ", with planted longer/torn/garbage files and clean regeneration after every injected failure; after every normal exit: exactly one game file, byte-identical to what an empty disk gets, loads to game_a/b/c, structure and validation hold, each game is solved or reported unsolvable within a step-clock bound that separates divergence from slow convergence, and the solver CLI on the file finishes under any clock.",
+ "C11": ("3.C11", "Seeded simulation of the generator -> file -> reader -> solver pipeline on one simulated disk: CLI (all equivalent spellings) and manual entry point, across restarts and repeatedly inside one process, on tiny/small/wide/tall/huge boards and every tile count 1..260 (thorough: 1..900) once, hand boards as lists or tuples, two generator runs at the same time in one folder (file-system events interleaved by a seeded token), whole-percent, many-digit and near-0/near-1 probabilities, under a simulated locale encoding and " + ENV + ", with planted longer/torn/garbage files and clean regeneration after every injected failure; after every normal exit: exactly one game file, byte-identical to what an empty disk gets, loads to game_a/b/c, structure and validation hold, each game is solved or reported unsolvable within a step-clock bound that separates divergence from slow convergence, and the solver CLI on the file finishes under any clock.",
          "Sampling, not proof. Divergence = constant per-sweep diff over 500 sweeps (read from the live frame); cap hits are inconclusive, never violations. Solve clause exercised for break probabilities in [0.01,0.99]. One open known finding (a diagnostic diverges). One seeded change (trigger: a text length that is an exact multiple of 65536) is known to be missed."),
- "C12": ("3.C12", "Seeded simulation of batch runs through the API (re-using the same dict objects across batches, also after a batch aborted by Ctrl-C or MemoryError) and through the CLI (write file, restart, main(), report parsed back) in seeded orders/subsets with failing games first/between/last/all, twins differing in one type or value, games carrying their own pruning flag, empty batches, odd names, CLI runs aborted by Ctrl-C/kill and run again, quiet stretches of identical batches, the caller editing the returned dictionary, under " + ENV + "; every entry must equal what a brand-new interpreter (other string-hash seed) returns for solving that game alone, messages must equal those of a single-game pristine batch, failures must not affect neighbours, keys must be name/name_no_prune in run order; exit status 0 under an I/O fault means every entry is in the report.",
+ "C12": ("3.C12", "Seeded simulation of batch runs through the API (re-using the same dict objects across batches, also after a batch aborted by Ctrl-C or MemoryError) and through the CLI (write file, restart, main(), report parsed back) in seeded orders/subsets with failing games first/between/last/all, twins differing in one type or value, games carrying their own pruning flag, empty batches, odd names, CLI runs aborted by Ctrl-C/kill and run again, two CLI runs at the same time on different files, games sharing list objects, quiet stretches of identical batches, the caller editing the returned dictionary, under " + ENV + "; every entry must equal what a brand-new interpreter (other string-hash seed) returns for solving that game alone, messages must equal those of a single-game pristine batch, failures must not affect neighbours, keys must be name/name_no_prune in run order; exit status 0 under an I/O fault means every entry is in the report.",
          "Sampling, not proof. Expected values come from the same code in a pristine process. total_time is excluded (probe only). One open known finding (X / X_no_prune name collision)."),
- "C15": ("3.C15", "Seeded simulation of board generation inside a long-lived process shared with other users of the global PRNG and across restarts with seeded OS entropy, with the caller editing returned boards in place and quiet stretches of 2^8..2^16 identical calls, under " + ENV + ": every board must be in range and identical to the one a brand-new interpreter (other string-hash seed) produces; CLI files must be byte-identical to the empty-disk reference (also when rerun after an injected failure, and for sibling parameter sets that share a file name) and must depict the very board gen_rnd_board returns; every boundary value and pair of boundary values of the eight range checks must be refused with ValueError with no write-mode open and an unchanged disk; pooled loose-tile frequency over independent seeds within 6 sigma.",
+ "C15": ("3.C15", "Seeded simulation of board generation inside a long-lived process shared with other users of the global PRNG and across restarts with seeded OS entropy, with the caller editing returned boards in place, quiet stretches of 2^8..2^16 identical calls and two generator runs at the same time, under " + ENV + ": every board must be in range and identical to the one a brand-new interpreter (other string-hash seed) produces; CLI files must be byte-identical to the empty-disk reference (also when rerun after an injected failure, and for sibling parameter sets that share a file name) and must depict the very board gen_rnd_board returns; every boundary value and pair of boundary values of the eight range checks must be refused with ValueError with no write-mode open and an unchanged disk; pooled loose-tile frequency over independent seeds within 6 sigma.",
          "Sampling, not proof (the boundary sweep is complete for the listed values and pairs). Frequency test pools only boards with distinct seeds. The comment cross-check is skipped when the comment is absent or drawn differently."),
- "C16": ("3.C16", "Seeded simulation of the solver on one simulated disk: input files in six textual styles, random stems over [A-Za-z0-9_], directories, absolute paths and equivalent path spellings, a few non-ASCII names, files of > 128 KiB edited in the middle; CLI runs and the same reader/run_games/writer calls inside one long-lived session (which also edits what it read and got back), under a simulated locale encoding and " + ENV + ", with planted longer/torn/garbage reports and same-length edits within the mtime granularity; after every normal exit exactly outputs/<stem>.txt (of the user's files) changed and parses back, block by block and line by line, to the dict run_games returned in that invocation; the reader must produce exactly the games the text denotes; a faulted run may fail but never succeed silently, and the next clean run must repair the report.",
+ "C16": ("3.C16", "Seeded simulation of the solver on one simulated disk: input files in six textual styles, random stems over [A-Za-z0-9_], directories, absolute paths and equivalent path spellings, a few non-ASCII names, files of > 128 KiB edited in the middle; CLI runs and the same reader/run_games/writer calls inside one long-lived session (which also edits what it read and got back), two CLI runs at the same time on different files, bare file names in the working directory, under a simulated locale encoding and " + ENV + ", with planted longer/torn/garbage reports and same-length edits within the mtime granularity; after every normal exit exactly outputs/<stem>.txt (of the user's files) changed and parses back, block by block and line by line, to the dict run_games returned in that invocation; the reader must produce exactly the games the text denotes; a faulted run may fail but never succeed silently, and the next clean run must repair the report.",
          "Sampling, not proof. Oracle = run_games' own return value captured at the module attribute; report grammar = current labels."),
- "C17": ("3.C17", "Seeded sequences of generator invocations (CLI in all equivalent spellings, manual entry point; across restarts and inside one driver process; some under injected OSErrors, logging levels, deep stacks) on one simulated disk with whole-percent probabilities biased to neighbouring percentages, huge seeds and maximum rewards, files written by an earlier version of the tool already on the disk, plus exhaustive sweeps k=1..99 of each probability field: every created path must state every parameter, and no path may ever receive data from two different parameter sets (a silently lost file).",
+ "C17": ("3.C17", "Seeded sequences of generator invocations (CLI in all equivalent spellings, manual entry point; across restarts and inside one driver process; some under injected OSErrors, logging levels, deep stacks) on one simulated disk with whole-percent probabilities biased to neighbouring percentages, huge seeds and maximum rewards, files written by an earlier version of the tool already on the disk, two runs for neighbouring percentages at the same time, plus exhaustive sweeps k=1..99 of each probability field: every created path must state every parameter, and no path may ever receive data from two different parameter sets (a silently lost file).",
          "Random part is sampling; the k-sweeps are complete per field for one base parameter set. Name parsing is order-independent; the collision invariant is format-independent."),
 }
 PENDING = {}
